@@ -4,6 +4,7 @@ The three abstract domains of `Model/Lifecycle.lean` are sound (`Flow.Sound`), h
 -/
 import MlVerif.Model.Lifecycle
 import MlVerif.Lemmas.Flow
+import MlVerif.Lemmas.FlowPair
 namespace MlVerif.Lifecycle
 open MlVerif.Flow
 
@@ -300,6 +301,111 @@ theorem nothing_stale (p : Prog Act) (required : List Nat)
     exact hr.2 a (hg a ha)
 
 end Fresh
+
+/-! ## 3b. two runs -/
+namespace NI
+
+/-- the two runs agree on every attribute already rewritten -/
+def Rel (d : Fresh.Abs) (st : St × St) : Prop := ∀ a, a ∈ d → st.1.attrs a = st.2.attrs a
+
+theorem map_agree {d : Fresh.Abs} {s t : St} (h : Rel d (s, t)) (reads : List Nat)
+    (hr : ∀ r ∈ reads, r ∈ d) : reads.map s.attrs = reads.map t.attrs := by
+  apply List.map_congr_left
+  intro r hm
+  exact h r (hr r hm)
+
+theorem sound : Sound (pairSem sem) Fresh.dom Rel where
+  join_l a b st h := fun x hx => h x (by simp only [Fresh.dom, List.mem_filter] at hx; exact hx.1)
+  join_r a b st h := fun x hx => h x (by
+    simp only [Fresh.dom, List.mem_filter, List.contains_iff_mem] at hx; exact hx.2)
+  le_sound a b st hle h := by
+    simp only [Fresh.dom, List.all_eq_true, List.contains_iff_mem] at hle
+    exact fun x hx => h x (hle x hx)
+  step_sound x d n st hc h := by
+    obtain ⟨s, t⟩ := st
+    cases x with
+    | wattr a reads =>
+      simp only [Fresh.dom, List.all_eq_true, List.contains_iff_mem] at hc
+      have hm := map_agree h reads hc
+      intro y hy
+      simp only [pairSem, sem, Fresh.dom] at hy ⊢
+      by_cases hya : y = a
+      · subst hya; simp [upd, hm]
+      · simp only [upd, hya, if_false]
+        simp only [List.mem_cons] at hy
+        rcases hy with hy | hy
+        · exact absurd hy hya
+        · exact h y hy
+    | dattr a =>
+      intro y hy
+      simp only [pairSem, sem, Fresh.dom] at hy ⊢
+      by_cases hya : y = a
+      · subst hya; simp [upd]
+      · simp only [upd, hya, if_false]
+        simp only [List.mem_cons] at hy
+        rcases hy with hy | hy
+        · exact absurd hy hya
+        · exact h y hy
+    | nop => exact h
+    | snap _ _ => exact h
+    | kill _ => exact h
+    | restore _ _ => exact h
+    | write _ => exact h
+    | bindAlias _ _ => exact h
+    | bindFresh _ => exact h
+    | mutate _ => exact h
+    | rattr _ => exact h
+  assume_sound c d n st _ h := h
+
+/-- a condition the analysis accepts reads only rewritten attributes, so both runs take the same branch -/
+theorem agree (c : Act) (d : Fresh.Abs) (n : Nat) (s t : St) (hc : Fresh.dom.check c d = true)
+    (h : Rel d (s, t)) : sem.test c n t = sem.test c n s := by
+  cases c with
+  | rattr reads =>
+    simp only [Fresh.dom, List.all_eq_true, List.contains_iff_mem] at hc
+    simp only [sem, map_agree h reads hc]
+  | wattr a reads =>
+    simp only [Fresh.dom, List.all_eq_true, List.contains_iff_mem] at hc
+    simp only [sem, map_agree h reads hc]
+  | nop => rfl
+  | snap _ _ => rfl
+  | kill _ => rfl
+  | restore _ _ => rfl
+  | write _ => rfl
+  | bindAlias _ _ => rfl
+  | bindFresh _ => rfl
+  | mutate _ => rfl
+  | dattr _ => rfl
+
+/-- **Refit = fit of a fresh clone** (two-run form).  Run the same `fit` skeleton with the same
+inputs (oracle: data, parameters, random draws) from two ARBITRARY attribute states `s` (whatever
+earlier fits and observer calls left) and `t` (e.g. the empty state of a fresh clone), where written
+values and attribute-dependent branches are functions of the inputs and of the attribute values read.
+If the analysis accepts the skeleton, both runs end the same way (both succeed or both raise, having
+consumed the same inputs) and, unless they raise, agree on the value of every attribute an observer
+can read. -/
+theorem refit_equals_fresh_fit (p : Prog Act) (required : List Nat)
+    (hok : exitsGood (Fresh.goodAt required) (analyze Fresh.dom p []) = true)
+    (o : Oracle) (s t : St) :
+    (exec sem p o t).1 = (exec sem p o s).1 ∧ (exec sem p o t).2.2 = (exec sem p o s).2.2 ∧
+    ((exec sem p o s).1 ≠ .exc →
+      ∀ a, a ∈ required → (exec sem p o s).2.1.attrs a = (exec sem p o t).2.1.attrs a) := by
+  have hrel : Rel [] (s, t) := fun a ha => by simp at ha
+  have hok' : (analyze Fresh.dom p []).ok = true := by
+    simp only [exitsGood, Bool.and_eq_true] at hok; exact hok.1.1.1.1
+  obtain ⟨he, hl⟩ := pair_exec sound agree p [] s t o hrel hok'
+  have hP := exits_good_sound sound (Fresh.goodAt required)
+    (fun out (st : St × St) => out ≠ .exc → ∀ a, a ∈ required → st.1.attrs a = st.2.attrs a) (by
+      intro out d st hg hr hne a ha
+      simp only [Fresh.goodAt, Bool.or_eq_true, beq_iff_eq] at hg
+      rcases hg with hg | hg
+      · exact absurd hg hne
+      · simp only [Fresh.good, List.all_eq_true, List.contains_iff_mem] at hg
+        exact hr a (hg a ha)) p [] (s, t) o hrel hok
+  rw [he] at hP
+  exact ⟨hl.1, hl.2, hP⟩
+
+end NI
 
 /-! ## 4. Trace -/
 namespace Trace
